@@ -22,7 +22,8 @@ PROPS["C03"] = dict(
           "triples: NBListGrid_3Body and NBList_3Body, one-/two-/three-type; stored list == {(c,{j,k}): both centre distances < cutoff, no "
           "pair of the three excluded}, each once, r12/r13/r23 and distances for the stored bead order; callbacks compared as a set "
           "(multiplicity not required, see DESIGN). non-trivial = >=1 expected triple with a leg across a periodic face AND >=1 non-pair "
-          "within the neighbouring cells."),
+          "within the neighbouring cells."
+          " Histories: in 30 % of the cases every search object has first produced a list for a smaller (or the same) cutoff, then Cleanup + setCutoff."),
     assumptions=COMMON_ASSUME + [
         "open boxes and cutoffs >= h_min/2 are outside the quantifier and never generated",
         "ambiguity band |d - cutoff| <= 1e-12*cutoff + 2^-46*(|p_i|+|p_j|): either outcome accepted (covers rounding of the image "
